@@ -1,5 +1,5 @@
 """C01 — mutual exclusion and Count capacity bound per key."""
-from props import engine_common
+from props import engine_common, engine2_common
 
 THEOREMS = ["Slock.C01.reachable_inv", "Slock.C01.doLock_sound", "Slock.C01.admission_bound",
             "Slock.C01.C01_admission_direct_partial", "Slock.C01.C01_admission_wake_partial",
@@ -18,6 +18,9 @@ def run(ctx):
     if ctx.tier == "thorough":
         ctx.leanchecker("Slock.Properties.C01")
     engine_common.run_engine(ctx, ["C01:"], n_quick=3000, n_thorough=60000)
+    # what is proved so far of the stage-2 → stage-1 simulation (branch tables refine, refusal branches stutter, the admission
+    # contract transferred to record-level states); the state-changing branches and the sweeps are tied by the executable abs cross-check
+    engine2_common.audit_sim(ctx)
     ctx.cov["rule"] = ("seeded operation sequences (LOCK/UNLOCK with flags from the core subset, ticks, role flips, snapshots, adaptive drain) on 1–2 keys, 2–4 LockIds, "
                        "3 connections; three profiles (mixed, capacity-heavy, queue-heavy); distinct_nontrivial = distinct sequences containing at least one grant")
 
